@@ -11,7 +11,7 @@ import shutil
 import subprocess
 import sys
 
-WT = "/tmp/wt_verify"
+WT = os.environ.get("CONFIRM_WT", "/tmp/wt_verify")   # CONFIRM_WT: reuse an already built scratch worktree
 ENV = dict(os.environ, CARGO_NET_OFFLINE="true")
 
 
